@@ -177,7 +177,13 @@ func (idb *indexDatabase) handle() {
 }
 
 func (idb *indexDatabase) handleFlush(event *FlushEvent) {
-	err := idb.indexDB.Flush()
+	var err error
+	if event.BeforeFlush != nil {
+		err = event.BeforeFlush()
+	}
+	if err == nil {
+		err = idb.indexDB.Flush()
+	}
 	event.Callback(err)
 }
 
